@@ -86,3 +86,5 @@ R('recv_passive', 'h_recv_passive', None, unwind=3, props=('C01', 'C04', 'C20'),
 for _r, _n in ((0, 'passive'), (1, 'active'), (2, 'answering')):
     R('recv_' + _n + '_any', 'h_recv_any', None, unwind=3, defines=['CASE_ROLE=%d' % _r], props={0: ('C01', 'C03', 'C04', 'C20'), 1: ('C02', 'C03', 'C04', 'C20'), 2: ('C15', 'C03', 'C20')}[_r], cost=400, timeout=1500)
     R('send_' + _n, 'h_send_any', None, unwind=3, defines=['CASE_ROLE=%d' % _r], props={0: ('C03', 'C04', 'C20'), 1: ('C02', 'C03', 'C04', 'C20'), 2: ('C15', 'C03', 'C20')}[_r], cost=200, timeout=1500)
+R('recv_c04_anyverdict', 'h_recv_c04', None, unwind=3, defines=['RELAXED_VERDICTS'], props=('C04',), cost=300, timeout=1500)
+R('send_c04', 'h_send_c04', None, unwind=3, defines=['RELAXED_VERDICTS'], props=('C04',), cost=50, timeout=1500)
